@@ -1,4 +1,4 @@
-(* FullCompile-WF, part 10: the link between the heights theorem of the fragment (FullCompileHt13.v) and the EXECUTABLE
+(* FullCompile-WF, part 10: the link between the heights theorem of the fragment (FullCompileHt17.v) and the EXECUTABLE
    verifier: for a program of the fragment, `Verifier.verify_program (flatten f)` can only answer OK / NONUNIQUE or reject
    with a verifier-internal reason (fuel, too many states per pc, not inductive, overlap) - never with a Stuck reason of the
    skeleton semantics; and in the multi-frame machine no frame is ever stuck. *)
@@ -6,18 +6,18 @@ From Coq Require Import Strings.Byte Strings.String.
 From Coq Require Import List NArith ZArith Bool Arith Lia.
 From YV Require Import Show Utf8 Num Ast Bytecode Skeleton Verifier VerifierProofs ParseLoc FullCompile FullCompileProofs
   FullCompileWF FullCompileWF2 FullCompileWFS FullCompileWFC FullCompileWFM FullCompileWFV.
-From YV Require FullCompileHt11 FullCompileHt12 FullCompileHt13.
+From YV Require FullCompileHt11 FullCompileHt12 FullCompileHt17.
 Import ListNotations.
 Local Open Scope nat_scope.
 Local Open Scope list_scope.
 
 (* every entry of the flattening of a fragment program is never stuck *)
 Theorem fragment_entries_safe (p : lprogram) (f : func) :
-  FullCompileHt13.wf_frag8 p = true -> compile_program p = COk f -> FullCompileHt12.noupsb f = true ->
+  FullCompileHt17.wf_frag12 p = true -> compile_program p = COk f -> FullCompileHt12.noupsb f = true ->
   forall F, In F (flatten f) -> forall s, reachable false (flatten f) F s -> succs false (flatten f) F s <> None.
 Proof.
   intros Hw Hc Hn F HF. destruct (flatten_entries f F HF) as (g & Hg & HM).
-  eapply FullCompileHt13.fullcompile_heights_functions8; eauto. apply FullCompileHt12.noupsb_noups. exact Hn.
+  eapply FullCompileHt17.fullcompile_heights_functionsB; eauto. apply FullCompileHt12.noupsb_noups. exact Hn.
 Qed.
 Print Assumptions fragment_entries_safe.
 
@@ -30,7 +30,7 @@ Qed.
 (* `fullcompile_verifies_fragment` in the form the brief asks for, as far as the untrusted inference allows:
    on the fragment the executable verifier never rejects with a reason of the semantics *)
 Theorem fullcompile_verifies_fragment_exec (p : lprogram) (f : func) :
-  FullCompileHt13.wf_frag8 p = true -> compile_program p = COk f -> FullCompileHt12.noupsb f = true ->
+  FullCompileHt17.wf_frag12 p = true -> compile_program p = COk f -> FullCompileHt12.noupsb f = true ->
   forall i q r, verify_program (flatten f) = VReject i q r -> internal_reason r.
 Proof.
   intros Hw Hc Hn i q r Hv. unfold verify_program, verify_program_with in Hv.
@@ -42,7 +42,7 @@ Print Assumptions fullcompile_verifies_fragment_exec.
 
 (* whole program: no frame of any reachable state of the multi-frame machine is stuck *)
 Theorem fragment_program_sound (p : lprogram) (f : func) :
-  FullCompileHt13.wf_frag8 p = true -> compile_program p = COk f -> FullCompileHt12.noupsb f = true ->
+  FullCompileHt17.wf_frag12 p = true -> compile_program p = COk f -> FullCompileHt12.noupsb f = true ->
   forall ms, mreachable false (flatten f) ms ->
     Forall (fun fr => frame_ok false (flatten f) fr /\ ~ frame_stuck false (flatten f) fr) ms /\
     length ms <= N.to_nat FRAMES_MAX.
@@ -60,7 +60,7 @@ Example fragment_exec_nonvacuous :
   exists p f,
     lparse_source (bs "fn f(n) { var i = 0; while i < n { if i == 3 { break; } i = i + 1; } return i; } var r = f(5); print(r);")
       = Parser.POk p /\ compile_program p = COk f /\
-    FullCompileHt13.wf_frag8 p = true /\ FullCompileHt12.noupsb f = true /\
+    FullCompileHt17.wf_frag12 p = true /\ FullCompileHt12.noupsb f = true /\
     verify_program (flatten f) = VOk 2 5 /\
     (forall ms, mreachable false (flatten f) ms -> Forall (fun fr => ~ frame_stuck false (flatten f) fr) ms).
 Proof.
@@ -74,4 +74,28 @@ Proof.
   split; [vm_compute; reflexivity|].
   intros ms Hr. destruct (fragment_program_sound _ _ HB HA HC ms Hr) as [Hall _].
   eapply Forall_impl; [|exact Hall]. intros fr [_ H]. exact H.
+Qed.
+
+(* a program with a class (constructor attribute, method using self), a function with a loop, instance creation, invoke *)
+Example fragment_exec_nonvacuous_class :
+  exists p f,
+    lparse_source (bs "#[constructor(new)] class P { fn get(self, a) { return self.x + a; } } fn f(n) { var i = 0; while i < n { if i == 3 { break; } i = i + 1; } return i; } var q = P.new(); q.x = 1; print(q.get(f(5)));")
+      = Parser.POk p /\ compile_program p = COk f /\
+    FullCompileHt17.wf_frag12 p = true /\ FullCompileHt12.noupsb f = true /\
+    (exists n m, verify_program (flatten f) = VOk n m) /\
+    (forall ms, mreachable false (flatten f) ms -> Forall (fun fr => ~ frame_stuck false (flatten f) fr) ms).
+Proof.
+  eexists. eexists. split; [vm_compute; reflexivity|].
+  match goal with |- ?A /\ _ => assert (HA : A) by (vm_compute; reflexivity) end.
+  split; [exact HA|].
+  match goal with |- ?A /\ _ => assert (HB : A) by (vm_compute; reflexivity) end.
+  split; [exact HB|].
+  match goal with |- ?A /\ _ => assert (HC : A) by (vm_compute; reflexivity) end.
+  split; [exact HC|].
+  split.
+  - match goal with |- exists n m, verify_program ?P = _ =>
+      let v := eval vm_compute in (verify_program P) in
+      match v with VOk ?n ?m => exists n, m; vm_compute; reflexivity end end.
+  - intros ms Hr. destruct (fragment_program_sound _ _ HB HA HC ms Hr) as [Hall _].
+    eapply Forall_impl; [|exact Hall]. intros fr [_ H]. exact H.
 Qed.
